@@ -138,7 +138,7 @@ Proof. exact q_positive_interior. Qed.
 
 (* ---- tie T at class level: the deriv methods regenerated from the NumPy source (Gen/Classes.v) are the model marginal costs ---- *)
 From DK.Gen Require Import Classes.
-From DK.Proofs Require Import GenClasses.
+From DK.Proofs Require Import GenClasses GenClassesDeriv.
 Theorem C01_source_device_deriv : forall n (s p : list R), Device_deriv (A:=R) n s p = dev_deriv n p.
 Proof. exact gen_device_deriv. Qed.
 Theorem C01_source_cdevice_deriv : forall n a b (s p : list R), CDevice_deriv (A:=R) n a b s p = cdev_deriv n a p.
